@@ -5,7 +5,8 @@
 // gcp_picker.go in which time.Now() is verifNow() (virtual clock).
 // It drives the real balancer through balancer.Get(Name).Build(fakeCC, ...)
 // with generated / replayed histories and writes one trace line per operation:
-//   OP ; OUTS RET <ret> UB <unblocked> ; OBS
+//
+//	OP ; OUTS RET <ret> UB <unblocked> ; OBS
 package grpcgcp
 
 import (
@@ -46,9 +47,9 @@ func (r *vpRng) next() uint64 {
 	z = (z ^ (z >> 27)) * 0x94D049BB133111EB
 	return z ^ (z >> 31)
 }
-func (r *vpRng) intn(n int) int { return int(r.next() % uint64(n)) }
+func (r *vpRng) intn(n int) int        { return int(r.next() % uint64(n)) }
 func (r *vpRng) pick(xs []int64) int64 { return xs[r.intn(len(xs))] }
-func (r *vpRng) chance(pct int) bool { return r.intn(100) < pct }
+func (r *vpRng) chance(pct int) bool   { return r.intn(100) < pct }
 
 // ---------------------------------------------------------------- virtual clock
 var (
@@ -67,6 +68,30 @@ func vpGetNow() int64 {
 	vpMu.Lock()
 	defer vpMu.Unlock()
 	return vpNow
+}
+
+// ---------------------------------------------------------------- yield gate
+// The overlay rewrites `p.gb.newSubConn()` in getLeastBusySubConnRef into
+// `verifYield("grow"); p.gb.newSubConn()`. With the gate on, a Pick parks here:
+// between its pool-size check and newSubConn(), i.e. between two critical sections.
+var (
+	vpGateMu  sync.Mutex
+	vpGateOn  bool
+	vpParked  []chan struct{}
+	vpParkSig = make(chan struct{}, 64)
+)
+
+func verifYield(site string) {
+	vpGateMu.Lock()
+	if !vpGateOn {
+		vpGateMu.Unlock()
+		return
+	}
+	ch := make(chan struct{})
+	vpParked = append(vpParked, ch)
+	vpGateMu.Unlock()
+	vpParkSig <- struct{}{}
+	<-ch
 }
 
 // ---------------------------------------------------------------- fake ClientConn
@@ -122,7 +147,9 @@ func (cc *vpCC) NewSubConn(a []resolver.Address, o balancer.NewSubConnOptions) (
 	}
 	// like gRPC 1.56.3 (balancer_conn_wrappers.go): an empty address list is refused
 	if cc.fail || len(a) == 0 {
-		cc.outs = append(cc.outs, fmt.Sprintf("NF %d", vpAddrID(a)))
+		if len(cc.outs) < 2000 { // a spinning caller must not flood the trace
+			cc.outs = append(cc.outs, fmt.Sprintf("NF %d", vpAddrID(a)))
+		}
 		cc.mu.Unlock()
 		return nil, errors.New("fake: NewSubConn refused")
 	}
@@ -281,6 +308,7 @@ type vpPick struct {
 	res     chan vpPickRes
 	goid    string
 	blocked bool
+	parked  bool
 	placed  bool
 	done    func(balancer.DoneInfo)
 	fin     bool
@@ -294,16 +322,18 @@ type vpPickRes struct {
 
 // ---------------------------------------------------------------- runner
 type vpRunner struct {
-	w     *bufio.Writer
-	cc    *vpCC
-	gb    *gcpBalancer
-	cfg   *GCPBalancerConfig
-	picks []*vpPick
-	dead  bool // history ended (panic / stuck)
-	hdr   vpOp
+	w           *bufio.Writer
+	cc          *vpCC
+	gb          *gcpBalancer
+	cfg         *GCPBalancerConfig
+	picks       []*vpPick
+	dead        bool // history ended (panic / stuck)
+	nstuck      int
+	parkedPicks []*vpPick
+	hdr         vpOp
 }
 
-const vpWatchdog = 2 * time.Second
+const vpWatchdog = 500 * time.Millisecond
 
 func vpGoID() string {
 	buf := make([]byte, 64)
@@ -461,7 +491,12 @@ func (r *vpRunner) start(h vpOp) {
 	r.hdr = h
 	r.cc = &vpCC{}
 	r.picks = nil
+	r.parkedPicks = nil
 	r.dead = false
+	vpGateMu.Lock()
+	vpGateOn = false
+	vpParked = nil
+	vpGateMu.Unlock()
 	b := balancer.Get(Name).Build(r.cc, balancer.BuildOptions{})
 	r.gb = b.(*gcpBalancer)
 	r.cc.gb = r.gb
@@ -505,6 +540,8 @@ func vpWaitPick(p *vpPick) (string, vpPickRes) {
 		select {
 		case res := <-p.res:
 			return "done", res
+		case <-vpParkSig:
+			return "parked", vpPickRes{}
 		default:
 		}
 		if vpGoState(p.goid) == "rrwait" {
@@ -629,6 +666,10 @@ func (r *vpRunner) apply(o vpOp) {
 		<-ready
 		st, res := vpWaitPick(p)
 		switch {
+		case st == "parked":
+			p.parked = true
+			r.parkedPicks = append(r.parkedPicks, p)
+			ret = "parked"
 		case st == "blocked":
 			p.blocked = true
 			r.picks = append(r.picks, p)
@@ -702,6 +743,43 @@ func (r *vpRunner) apply(o vpOp) {
 		r.cc.mu.Lock()
 		r.cc.fail = o.a[0] != 0
 		r.cc.mu.Unlock()
+	case "G":
+		vpGateMu.Lock()
+		vpGateOn = o.a[0] != 0
+		vpGateMu.Unlock()
+	case "Z":
+		k := int(o.a[0])
+		vpGateMu.Lock()
+		if k < 0 || k >= len(vpParked) || k >= len(r.parkedPicks) {
+			vpGateMu.Unlock()
+			ret = "badop"
+			break
+		}
+		ch := vpParked[k]
+		vpParked = append(vpParked[:k:k], vpParked[k+1:]...)
+		vpGateMu.Unlock()
+		p := r.parkedPicks[k]
+		r.parkedPicks = append(r.parkedPicks[:k:k], r.parkedPicks[k+1:]...)
+		close(ch)
+		select {
+		case res := <-p.res:
+			switch {
+			case res.panic != nil:
+				ret = "panic"
+			case res.err == balancer.ErrNoSubConnAvailable:
+				ret = "nosub"
+			default:
+				ret = "nilsc"
+			}
+		case <-time.After(vpWatchdog):
+			ret = "stuck"
+			r.cc.mu.Lock()
+			r.cc.abandoned = true
+			r.cc.mu.Unlock()
+		}
+	}
+	if ret == "stuck" {
+		r.nstuck++
 	}
 	if ret == "panic" || ret == "stuck" {
 		r.dead = true
@@ -716,6 +794,13 @@ func (r *vpRunner) finish() {
 	for _, p := range r.picks {
 		p.ctx.cancel()
 	}
+	vpGateMu.Lock()
+	vpGateOn = false
+	for _, ch := range vpParked {
+		close(ch)
+	}
+	vpParked = nil
+	vpGateMu.Unlock()
 }
 
 func (r *vpRunner) runHistory(h []vpOp) {
@@ -792,6 +877,70 @@ func (r *vpRunner) genAndRun(g *vpRng, maxOps int, prop string) {
 			}
 			if p.blocked {
 				blocked = append(blocked, p.id)
+			}
+		}
+		// directed mini-scenarios (keep the interesting situations frequent)
+		if npk > 0 && g.chance(12) {
+			latest := int64(npk - 1)
+			switch sc := g.intn(6); {
+			case sc == 0 || prop == "C07" && sc < 4:
+				// a call with a short deadline that ends with a client-side deadline-exceeded after the window
+				dl := vpGetNow() + g.pick([]int64{1000000, 2000000})
+				before := len(r.picks)
+				r.apply(vpOp{kind: "P", a: []int64{latest, 0, 1, dl, 0}})
+				if len(r.picks) > before && !r.dead {
+					r.apply(vpOp{kind: "V", a: []int64{g.pick([]int64{1000000, 1000001, 2000001, 100000001, 200000001, 400000001})}})
+					r.apply(vpOp{kind: "D", a: []int64{int64(before), 2}})
+					// the replacement (if any) becomes READY
+					if g.chance(60) && len(r.cc.scs) > nsc && !r.dead {
+						if g.chance(30) {
+							r.apply(vpOp{kind: "C", a: []int64{int64(len(r.cc.scs) - 1), 1}})
+						}
+						r.apply(vpOp{kind: "C", a: []int64{int64(len(r.cc.scs) - 1), 2}})
+					}
+				}
+				continue
+			case sc == 4 || (prop == "C01" || prop == "C08") && sc < 3:
+				// bind a key, then use it
+				before := len(r.picks)
+				r.apply(vpOp{kind: "P", a: []int64{latest, 1, 1, -1, 0}})
+				if len(r.picks) > before && r.picks[before].placed && !r.dead {
+					k := 1 + g.intn(nkeys)
+					r.apply(vpOp{kind: "D", a: []int64{int64(before), 0}, keys: []int{k}})
+					if g.chance(50) && nsc > 0 && !r.dead {
+						r.apply(vpOp{kind: "C", a: []int64{int64(g.intn(nsc)), g.pick([]int64{3, 1, 0, 2})}})
+					}
+					if !r.dead && len(r.cc.pickers) > 0 {
+						r.apply(vpOp{kind: "P", a: []int64{int64(len(r.cc.pickers) - 1), g.pick([]int64{2, 2, 3}), 1, -1, 0}, keys: []int{k}})
+					}
+				}
+				continue
+			case os.Getenv("VERIF_NOGATE") == "" && (sc == 3 && g.chance(50) || prop == "C03" && sc < 2) && npk >= 2 && len(r.parkedPicks) == 0:
+				// check-then-create window: a growing call on a superseded picker is parked between its
+				// size check and newSubConn(); meanwhile the pool changes
+				stale := int64(g.intn(npk - 1))
+				r.apply(vpOp{kind: "G", a: []int64{1}})
+				r.apply(vpOp{kind: "P", a: []int64{stale, 0, 1, -1, 0}})
+				r.apply(vpOp{kind: "G", a: []int64{0}})
+				if len(r.parkedPicks) > 0 && !r.dead {
+					for q := 0; q < 1+g.intn(3) && !r.dead; q++ {
+						before := len(r.cc.scs)
+						r.apply(vpOp{kind: "P", a: []int64{int64(len(r.cc.pickers) - 1), 0, 1, -1, 0}})
+						if len(r.cc.scs) > before && g.chance(80) && !r.dead {
+							r.apply(vpOp{kind: "C", a: []int64{int64(len(r.cc.scs) - 1), 2}})
+						}
+					}
+					if !r.dead {
+						r.apply(vpOp{kind: "Z", a: []int64{0}})
+					}
+				}
+				continue
+			case sc == 5 || prop == "C03" && sc < 3:
+				// saturate: several calls that stay open
+				for q := 0; q < 2+g.intn(4) && !r.dead; q++ {
+					r.apply(vpOp{kind: "P", a: []int64{int64(len(r.cc.pickers) - 1), 0, 1, -1, 0}})
+				}
+				continue
 			}
 		}
 		c := g.intn(100)
@@ -977,5 +1126,10 @@ func TestVerifPool(t *testing.T) {
 	prop := os.Getenv("VERIF_PROP")
 	for i := 0; i < n; i++ {
 		r.genAndRun(g, maxOps, prop)
+		if r.nstuck >= 15 {
+			// every stuck call costs a watchdog period; enough evidence has been collected
+			fmt.Fprintf(os.Stderr, "stopping after %d stuck calls (%d of %d histories run)\n", r.nstuck, i+1, n)
+			break
+		}
 	}
 }
